@@ -62,7 +62,7 @@ def dec_case(c):
 
 
 def slim(r):
-    return dict(lit=r['lit'], viol=r['viol'], case=r['case'], triggered=r.get('triggered'),
+    return dict(lit=r['lit'], viol=r['viol'], case=r['case'], triggered=r.get('triggered'), n_peer_records=r.get('n_peer_records'),
                 outcome=r.get('outcome'), outs=r.get('outs'), blocked=r.get('blocked'), extra=r.get('extra'))
 
 
@@ -85,6 +85,13 @@ def hs_batch(b):
                             continue
                         c = dict(base, fkind=fkind, findex=idx, ferr=ferr, eager=eager)
                         out.append(slim(U.run_hs_fault_case(c)))
+        # the peer sends an alert in place of its n-th record (unchunked batches only)
+        if b['rchunk'] is None:
+            alerts = [(2, 40), (1, 0), (1, 90), (2, 0), (2, 20), (3, 80)]
+            for n in range(r0['n_peer_records']):
+                sel = alerts if b.get('all_alerts') else [alerts[(n + b['seed']) % 6], alerts[(n + b['seed'] + 3) % 6]]
+                for (l, d) in sel:
+                    out.append(slim(U.run_hs_fault_case(dict(base, palert=(n, l, d)))))
     except Exception as e:  # noqa
         import traceback
         out.append(dict(error='%s: %s' % (b, traceback.format_exc()[-1500:])))
@@ -127,7 +134,7 @@ def gen_hs_batches(ctx, quick):
             n += 1
             for (ign, csock) in fsel:       # unchunked: few I/O calls, every index, lockstep and eager peer
                 out.append(dict(fl=name, side=side, ign=ign, csock=csock, rchunk=None, schunk=None, step=1, offset=0,
-                                eager=[False, True], seed=rng.randrange(1 << 30)))
+                                eager=[False, True], seed=rng.randrange(1 << 30), all_alerts=not quick))
             if quick and (n + ctx.seed) % 2:
                 continue                    # quick: chunked sweep for every other (flavour, side); thorough: all
             for (ign, csock) in fsel2:      # chunked: a fault inside every record / flight
@@ -209,12 +216,12 @@ def run(ctx):
         c = r['case']
         ctx.count('handshake-fault-oracle', 1,
                   [(c['fl'], c['side'], c['fkind'] if r['triggered'] else 'none', c['ferr'] if r['triggered'] else None,
-                    c['findex'] if r['triggered'] else -1, c['rchunk'], c['eager'], r['outcome'][0])],
+                    c['findex'] if r['triggered'] else -1, c['rchunk'], c['eager'], tuple(c.get('palert') or ()), r['outcome'][0])],
                   sample=enc(c) if c['findex'] == 1 and c['ferr'] == 'eof' else None)
         for key, what in r['viol']:
-            found = True
-            ctx.violation(key, what, {'kind': 'hs', 'case': enc(c),
-                                      'how': './check C17 --replay <this file>  (c17_util.run_hs_fault_case)'})
+            if ctx.violation(key, what, {'kind': 'hs', 'case': enc(c),
+                                         'how': './check C17 --replay <this file>  (c17_util.run_hs_fault_case)'}):
+                found = True          # (a known finding does not count as the explanation of a broken tie)
     for r in dres:
         c = r['case']
         shape = tuple(op[0] if op[0] != 'palert' else 'alert%d/%d' % (op[1], op[2]) for op in c['script'])
@@ -225,15 +232,15 @@ def run(ctx):
             if r['extra'] is not None:
                 tie_broken = 'blocking and async API disagree on %s: %s' % (enc(c), r['extra'])
         for key, what in r['viol']:
-            found = True
-            ctx.violation(key, what, {'kind': 'data', 'case': enc(c),
-                                      'how': './check C17 --replay <this file>  (c17_util.run_data_case)'})
+            if ctx.violation(key, what, {'kind': 'data', 'case': enc(c),
+                                         'how': './check C17 --replay <this file>  (c17_util.run_data_case)'}):
+                found = True
     # ---- model and implementation on the same scripts
     if res['model_ok']:
         hl = [r['lit'] for r in hres]
         (bad_hs,), errs = vlib.coq_bad_indices('C17h', IMPORTS, 'HsCase', ['chk_hs'], hl,
                                                shard=max(20, (len(hl) + 31) // 32))
-        wf = [r['lit'] for r in hres if not r['triggered']]
+        wf = [r['lit'] for r in hres if not r['triggered'] and not r['case'].get('palert')]
         bad_wf, errs2 = vlib.coq_bad_indices('C17w', IMPORTS, 'HsCase', 'chk_hs_wf', wf, shard=max(20, (len(wf) + 15) // 16))
         dl = [r['lit'] for r in dres]
         bad_d, errs3 = vlib.coq_bad_indices('C17d', IMPORTS, 'DataCase', 'chk_data', dl, shard=max(20, (len(dl) + 31) // 32))
